@@ -209,6 +209,7 @@ func c36(c *core.Ctx) {
 			}
 		}
 	}
+	c36Alias(c, ls, fns)
 	if !hasRule(c, "C36.escape") {
 		c.Ob("C36.escape", "library·no guarded container escapes", "-", true, "no function returns a guarded slice/map")
 	}
